@@ -263,15 +263,12 @@ def one_queue(run, f, sp, lc, rule="O2.1"):
     b, blk = sites[0]
     tr = tracer_of(b)
     chan_term = ("call", blk.idx, callee(blk.term))
-    # sender half -> ActorRef::new ; receiver half -> the lifecycle call
-    new_calls = [k for k in live_calls(b) if callee(k.term) == "actor_ref::ActorRef::<T>::new"]
+    # sender half -> the one freshly built ActorRef (private constructors are inlined: the aggregate is in this body);
+    # receiver half -> the lifecycle call
     lc_calls = [k for k in live_calls(b) if callee(k.term) == lc.root_fn]
-    ok_tx = len(new_calls) == 1 and any(strip_wrappers(tr.norm(a)) == ("field", 0, chan_term) for a in tr.call_args(new_calls[0].idx))
     ok_rx = len(lc_calls) == 1 and any(strip_wrappers(tr.norm(a)) == ("field", 1, chan_term) for a in tr.call_args(lc_calls[0].idx))
-    run.require(ok_tx, rule, "sender-into-actorref", "the mailbox Sender does not go into the one ActorRef::new call", "Sender half -> ActorRef::new", loc=loc_of(b, blk))
     run.require(ok_rx, rule, "receiver-into-lifecycle", "the mailbox Receiver does not go into the lifecycle call", "Receiver half -> run_actor_lifecycle", loc=loc_of(b, blk))
-    n_new = [(bb.name) for bb, k in all_calls(f) if callee(k.term) == "actor_ref::ActorRef::<T>::new"]
-    run.require(len(n_new) == 1, rule, "actorref-new-one-caller", "ActorRef::new is called from %s" % n_new, "ActorRef::new has one caller (the spawn function)")
+    fresh = []
     # every construction of an ActorRef takes its sender from a parameter, a clone of self.sender or an upgrade
     midx = actorref_field_index(f, "mailbox")
     n = 0
@@ -292,6 +289,9 @@ def one_queue(run, f, sp, lc, rule="O2.1"):
                             origin = "clone of self.sender"
                     elif t[0] == "try_ok" or (t[0] == "field" and t[2][0] == "downcast"):
                         origin = None
+                    if t == ("field", 0, chan_term) and bd.name == b.name:
+                        origin = "the Sender half of the mailbox channel (spawn)"
+                        fresh.append(f.span(st["span"]).loc)
                     tt = norm_try(t2, t2.operand(op))
                     if origin is None and tt[0] == "try_ok":
                         c = strip_wrappers(tt[1])
@@ -299,7 +299,9 @@ def one_queue(run, f, sp, lc, rule="O2.1"):
                             origin = "upgrade of the weak sender"
                     run.require(origin is not None, rule, "actorref-sender-origin:%s" % short_fn(bd.root or bd.defn), "ActorRef built in %s with sender %s" % (bd.name, show(t)),
                                 "sender: %s" % origin, loc=f.span(st["span"]).loc)
-    run.require(n >= 3, rule, "actorref-construction-floor", "only %d ActorRef constructions found" % n, "%d ActorRef construction sites (new, clone, upgrade)" % n)
+    run.require(n >= 3, rule, "actorref-construction-floor", "only %d ActorRef constructions found" % n, "%d ActorRef construction sites (spawn, clone, upgrade)" % n)
+    run.require(len(fresh) == 1, rule, "sender-into-actorref", "the mailbox Sender goes into %d freshly built ActorRef values in the spawn function %s (expected exactly one)" % (len(fresh), fresh),
+                "Sender half -> the one ActorRef built by the spawn function", loc=loc_of(b, blk))
     return b, blk
 
 
